@@ -52,7 +52,7 @@ pub fn judge(root: &Path, c: &Case) -> Result<bool, (String, String)> {
         for (i, (put, key)) in c.writes.iter().enumerate() {
             crate::shim::begin_op(i as u32);
             let name = format!("k{}", key);
-            let op = Op { kind: if *put { OpKind::Put } else { OpKind::Set }, key: KeySpec::new(&name, *key as u64, !(*key as u64)), val: Val::new(&name, 1, i as u32, 1), pop: Pop::Value, nosy: false };
+            let op = Op { kind: if *put { OpKind::Put } else { OpKind::Set }, key: KeySpec::new(&name, *key as u64, !(*key as u64)), val: Val::new(&name, 1, i as u32, 1), pop: Pop::Value, nosy: false, link_from: None };
             let (ret, _) = exec(&root, &h, &op);
             let count = crate::shim::bypass(|| std::fs::read_dir(root.join("cache")).map(|rd| rd.flatten().filter(|e| !e.file_name().to_string_lossy().starts_with('.')).count()).unwrap_or(0));
             rets.push((ret, count));
@@ -149,7 +149,7 @@ pub fn judge_small_draws(root: &Path, c: &Case) -> Result<(), (String, String)> 
         for (i, (put, key)) in c2.writes.iter().enumerate() {
             crate::shim::begin_op(i as u32);
             let name = format!("k{}", key);
-            let op = Op { kind: if *put { OpKind::Put } else { OpKind::Set }, key: KeySpec::new(&name, *key as u64, 7), val: Val::new(&name, 1, i as u32, 1), pop: Pop::Value, nosy: false };
+            let op = Op { kind: if *put { OpKind::Put } else { OpKind::Set }, key: KeySpec::new(&name, *key as u64, 7), val: Val::new(&name, 1, i as u32, 1), pop: Pop::Value, nosy: false, link_from: None };
             rets.push(exec(&root2, &h, &op).0);
         }
         crate::shim::leave_world();
